@@ -181,11 +181,9 @@ noncomputable instance blocks : Blocks (MvPowerSeries σ M) where
     exact CoeffBlocks.comm_right _ _
 
 
-/-- unperturbed Hamiltonian and Sylvester solver at the level of coefficients (for matrices: a diagonal matrix of energies and
-    entry-wise division by energy differences, see PV/MatrixModel.lean) -/
-structure CoeffUnperturbed (M : Type*) [Ring M] [StarRing M] [Algebra ℚ M] [StarModule ℚ M] [CoeffBlocks M] where
+/-- unperturbed Hamiltonian and Sylvester solver at the level of coefficients, without adjoint facts (non-Hermitian case) -/
+structure CoeffUnperturbedNH (M : Type*) [Ring M] [StarRing M] [Algebra ℚ M] [StarModule ℚ M] [CoeffBlocks M] where
   H0 : M
-  H0_star : star H0 = H0
   H0_up : Q up H0 = 0
   H0_lo : Q lo H0 = 0
   H0_ed : Q ed H0 = 0
@@ -196,6 +194,12 @@ structure CoeffUnperturbed (M : Type*) [Ring M] [StarRing M] [Algebra ℚ M] [St
   Sy_up : ∀ z : M, Q up (H0 * Sy z - Sy z * H0) = Q up z
   Sy_ed : ∀ z : M, Q ed (H0 * Sy z - Sy z * H0) = Q ed z
   Sy_lo : ∀ z : M, Q lo (H0 * Sy z - Sy z * H0) = Q lo z
+
+/-- Hermitian case (for matrices: a diagonal matrix of real energies and entry-wise division by energy differences,
+    see PV/MatrixModel.lean) -/
+structure CoeffUnperturbed (M : Type*) [Ring M] [StarRing M] [Algebra ℚ M] [StarModule ℚ M] [CoeffBlocks M]
+    extends CoeffUnperturbedNH M where
+  H0_star : star H0 = H0
   Sy_ed_star : ∀ z : M, Q ed (star (Sy z)) = - Q ed (Sy (star z))
 
 theorem star_C (a : M) : star (C (σ := σ) a) = C (star a) := by
@@ -206,14 +210,13 @@ theorem star_C (a : M) : star (C (σ := σ) a) = C (star a) := by
 theorem coeff_P (p : Part) (f : MvPowerSeries σ M) (n : σ →₀ ℕ) : coeff n (P p f) = Q p (coeff n f) := rfl
 
 /-- the solver applied order by order -/
-noncomputable def sySeries (c : CoeffUnperturbed M) (f : MvPowerSeries σ M) : MvPowerSeries σ M := fun n => c.Sy (coeff n f)
+noncomputable def sySeries (c : CoeffUnperturbedNH M) (f : MvPowerSeries σ M) : MvPowerSeries σ M := fun n => c.Sy (coeff n f)
 
-theorem coeff_sySeries (c : CoeffUnperturbed M) (f : MvPowerSeries σ M) (n : σ →₀ ℕ) : coeff n (sySeries c f) = c.Sy (coeff n f) := rfl
+theorem coeff_sySeries (c : CoeffUnperturbedNH M) (f : MvPowerSeries σ M) (n : σ →₀ ℕ) : coeff n (sySeries c f) = c.Sy (coeff n f) := rfl
 
 /-- the series-level data of `block_diagonalize`: constant series `H0`, solver applied order by order -/
-noncomputable def lift (c : CoeffUnperturbed M) : Unperturbed (MvPowerSeries σ M) where
+noncomputable def liftNH (c : CoeffUnperturbedNH M) : UnperturbedNH (MvPowerSeries σ M) where
   H0 := C c.H0
-  H0_star := by rw [star_C, c.H0_star]
   H0_up := by ext n; rw [coeff_P, coeff_C]; split <;> simp [c.H0_up]
   H0_lo := by ext n; rw [coeff_P, coeff_C]; split <;> simp [c.H0_lo]
   H0_ed := by ext n; rw [coeff_P, coeff_C]; split <;> simp [c.H0_ed]
@@ -235,16 +238,23 @@ noncomputable def lift (c : CoeffUnperturbed M) : Unperturbed (MvPowerSeries σ 
     ext n
     rw [coeff_P, map_sub, coeff_C_mul, coeff_mul_C, coeff_P, coeff_sySeries]
     exact c.Sy_lo _
+
+noncomputable def lift (c : CoeffUnperturbed M) : Unperturbed (MvPowerSeries σ M) where
+  toUnperturbedNH := liftNH c.toCoeffUnperturbedNH
+  H0_star := by
+    show star (C c.H0) = C c.H0
+    rw [star_C, c.H0_star]
   Sy_ed_star z := by
     ext n
+    show coeff n (P ed (star (sySeries c.toCoeffUnperturbedNH z))) = coeff n (- P ed (sySeries c.toCoeffUnperturbedNH (star z)))
     rw [coeff_P, map_neg, coeff_P, coeff_star, coeff_sySeries, coeff_sySeries, coeff_star]
     exact c.Sy_ed_star _
 
 /-- the gap condition of the uniqueness theorem follows from its coefficient-level form -/
-theorem gapped_lift (c : CoeffUnperturbed M)
+theorem gapped_lift (c : CoeffUnperturbedNH M)
     (gap : ∀ x : M, Q kc x + Q kn x = 0 → c.H0 * x - x * c.H0 = 0 → x = 0) :
     ∀ (n : ℕ) (v : MvPowerSeries σ M), v ∈ I (A := MvPowerSeries σ M) n → P kc v + P kn v = 0 →
-      (lift (σ := σ) c).H0 * v - v * (lift (σ := σ) c).H0 ∈ I (A := MvPowerSeries σ M) (n + 1) → v ∈ I (A := MvPowerSeries σ M) (n + 1) := by
+      (liftNH (σ := σ) c).H0 * v - v * (liftNH (σ := σ) c).H0 ∈ I (A := MvPowerSeries σ M) (n + 1) → v ∈ I (A := MvPowerSeries σ M) (n + 1) := by
   intro n v hv hs hc m hm
   by_cases h : m.degree < n
   · exact hv m h
